@@ -242,6 +242,14 @@ func (fx *FnExec) oblige(class, label, goal, text string, p token.Pos) *Obligati
 			fx.assume(goal)
 			return &Obligation{}
 		}
+		// waive <class>#<label prefix> <reason>: only the obligations of that class whose label starts so
+		for k, why := range fx.con.Flags {
+			if pre := "waive:" + class + "#"; strings.HasPrefix(k, pre) && label != "" && strings.HasPrefix(label, k[len(pre):]) {
+				fx.waived = append(fx.waived, class+"#"+k[len(pre):]+": "+why)
+				fx.assume(goal)
+				return &Obligation{}
+			}
+		}
 	}
 	if safetyClasses[class] && fx.con != nil && hasFlag(fx.con, "nosafety") {
 		// panic-freedom of this function is not claimed here: assumed
